@@ -137,7 +137,12 @@ class _STIXBase(collections.abc.Mapping):
         # In STIX 2.1, this is complicated by "toplevel-property-extension"
         # type extensions, which can add extra properties which are *not*
         # considered custom.
+        # (STIX 2.0 has no extension mechanism: there, "extensions" is just
+        # another unknown property.)
         extensions = kwargs.get("extensions")
+        if extensions is not None and \
+                isinstance(self, stix2.v20._STIXBase20):
+            extensions = None
         registered_toplevel_extension_props = {}
         has_unregistered_toplevel_extension = False
         # (Malformed "extensions" content is left to property cleaning below.)
